@@ -67,6 +67,7 @@ type Op struct {
 	A    int       `json:"a,omitempty"`
 	B    int       `json:"b,omitempty"`
 	N    int       `json:"n,omitempty"`
+	ID   int       `json:"id,omitempty"`
 }
 
 type Plan struct {
@@ -157,6 +158,7 @@ func Generate(r *rand.Rand, profile string, concurrent bool, avoid map[string]bo
 		if concurrent {
 			o.N = r.IntN(10)
 		}
+		o.ID = i + 1
 		p.Ops = append(p.Ops, o)
 	}
 	return p
@@ -288,6 +290,8 @@ type sim struct {
 	stop      bool
 	closedAll bool
 	rejected  int
+	hintOp    int
+	hintN     uint64
 }
 
 //go:norace
@@ -359,6 +363,7 @@ func invalid(o OptsSpec) bool { return o.BadDef || o.EmptyME > 0 }
 //go:norace
 func (s *sim) call(name string, group int, fn func()) (po *callRec) {
 	po = &callRec{name: name}
+	s.hint()
 	po.t = s.k.Spawn(name, group, nil, func() {
 		defer func() {
 			if r := recover(); r != nil {
@@ -1008,7 +1013,24 @@ func (s *sim) finish() {
 	s.res.States = append(s.res.States, h)
 }
 
+// hint gives the next spawned task a schedule-independent key derived from the
+// current operation's stable id, so that recorded scheduling decisions survive
+// the removal of other operations during shrinking.
+//
 //go:norace
+//go:norace
+func (s *sim) hint() {
+	id := uint64(1000000 + s.opIdx + 1)
+	if s.opIdx >= 0 && s.opIdx < len(s.plan.Ops) && s.plan.Ops[s.opIdx].ID != 0 {
+		id = uint64(s.plan.Ops[s.opIdx].ID)
+	}
+	if s.hintOp != s.opIdx {
+		s.hintOp, s.hintN = s.opIdx, 0
+	}
+	s.hintN++
+	s.k.KeyHint = kern.MixKey(id, s.hintN)
+}
+
 func runtimeStack(b []byte) int { return runtime.Stack(b, false) }
 
 // ---------------------------------------------------------------- engine
